@@ -23,10 +23,11 @@ vlib.standard_check({
     # harness args after the seed: ncases mode   (0 random allocator sequences, 1 allocator sweep over all reserved words x 3 cases x 19 kinds,
     # 2 random designs exported, 3 export sweep: one design per reserved word x 3 cases (+ncases random), 4 directed sub-entity/instance-name designs,
     # 5 comment formatters of DefaultCodeFormatting on generated comments (16 calls per case), 6 directed designs with logic-driven resets/clocks
-    # over late-assigned signals behind multiplexers (+ comments))
-    "streams": {"quick": [[40, 3], [0, 1], [3000, 0], [400, 2], [300, 4], [400, 5], [400, 6]],
-                "thorough": [[3000, 3], [0, 1], [150000, 0], [40000, 2], [15000, 4], [30000, 5], [20000, 6]]},
-    "search": [[0, 1], [0, 3], [1000, 4], [2000, 2], [1000, 5], [2000, 6]],
+    # over late-assigned signals behind multiplexers (+ comments), 7 directed designs around vector constants of widths 1..7 / 60..70 / 65..140 /
+    # 129..200 (mostly not multiples of 4; defined, all-0, all-1, partly undefined) as reset values, operands, mux inputs, named constants, outputs)
+    "streams": {"quick": [[40, 3], [0, 1], [3000, 0], [400, 2], [300, 4], [400, 5], [400, 6], [300, 7]],
+                "thorough": [[3000, 3], [0, 1], [150000, 0], [40000, 2], [15000, 4], [30000, 5], [20000, 6], [15000, 7]]},
+    "search": [[0, 1], [0, 3], [1000, 4], [2000, 2], [1000, 5], [2000, 6], [1500, 7]],
     "signature": signature,
     "eval_key": "ops",
     "nontrivial": lambda t: t.get("alloc_renamed", 0) + t.get("vhdl_assignments", 0) + t.get("vhdl_instances", 0) + t.get("comment_formatter_calls", 0)
@@ -37,6 +38,10 @@ vlib.standard_check({
             "and constants, nested entity areas with instance names and component instantiation, plain areas) with all names from the same pools, "
             "one design per reserved word x 3 cases with the word in every name position; directed designs whose derived clocks get logic-driven "
             "resets/clocks (overrideRstWith/overrideClkWith) computed through multiplexers over signals declared first and assigned later; multi-line "
+            "designs around vector constants of widths 1..7, 60..70, 65..140, 129..200 (three in four not a multiple of 4; random, all-zero, all-one, "
+            "partly undefined) used as register reset values, operands of logic/arithmetic/comparison, multiplexer inputs, named constants and "
+            "output drivers — every bit-string literal's width (x\"\" 4/digit, o\"\" 3, b\"\"/\"\" 1) is compared with its target, the declared object "
+            "it initialises, the other operand, the CASE selector; multi-line "
             "comments (1..5 lines: empty, indented with blanks/tabs, containing --, quotes, semicolons, VHDL statements, 300..700 characters, CR LF) on "
             "the top entity, sub-entities, areas and nodes of about half of the designs, every comment line carrying a marker; the four comment "
             "formatters called directly on such comments; every emitted file is tokenised, parsed and checked. Non-vacuity of the name quantifier: "
